@@ -56,3 +56,50 @@
 (define-fun validDateT ((t Time) (l String)) Bool
   (and (>= (datePrec l) 0) (= (tOff t) 0) (civRanges t) (= (tH t) 0) (= (tMi t) 0) (= (tS t) 0) (= (tNs t) 0)
        (=> (< (datePrec l) 1) (= (tMo t) 1)) (=> (< (datePrec l) 2) (= (tD t) 1))))
+; the same instant seen in UTC
+(declare-fun utcT (Time) Time)
+(assert (forall ((t Time)) (! (and (= (tInst (utcT t)) (tInst t)) (= (tOff (utcT t)) 0) (civRanges (utcT t))
+    (=> (= (tOff t) 0) (and (= (tY (utcT t)) (tY t)) (= (tMo (utcT t)) (tMo t)) (= (tD (utcT t)) (tD t)) (= (tH (utcT t)) (tH t))
+                            (= (tMi (utcT t)) (tMi t)) (= (tS (utcT t)) (tS t)) (= (tNs (utcT t)) (tNs t)))))
+   :pattern ((utcT t)))))
+; ASSUMED: a zone offset that is a whole number of hours (minutes) leaves the minute and
+; second (second) fields of the UTC view unchanged
+(assert (forall ((t Time)) (! (and
+    (=> (= (mod (tOff t) 3600) 0) (= (tMi (utcT t)) (tMi t)))
+    (=> (= (mod (tOff t) 60) 0) (and (= (tS (utcT t)) (tS t)) (= (tNs (utcT t)) (tNs t)))))
+   :pattern ((utcT t)))))
+; generic component-wise comparison of n+1 components c(0..p), "sec" = index of the seconds
+; component (always decisive: sub-second precision is irrelevant)
+(define-fun cmpLevels ((a0 Int) (b0 Int) (a1 Int) (b1 Int) (a2 Int) (b2 Int) (a3 Int) (b3 Int) (a4 Int) (b4 Int) (a5 Int) (b5 Int) (p Int) (same Bool) (sec Int)) Int
+  (ite (or (not (= a0 b0)) (= sec 0)) (cmpI a0 b0)
+  (ite (< p 1) (ite same 0 2)
+  (ite (or (not (= a1 b1)) (= sec 1)) (cmpI a1 b1)
+  (ite (< p 2) (ite same 0 2)
+  (ite (or (not (= a2 b2)) (= sec 2)) (cmpI a2 b2)
+  (ite (< p 3) (ite same 0 2)
+  (ite (or (not (= a3 b3)) (= sec 3)) (cmpI a3 b3)
+  (ite (< p 4) (ite same 0 2)
+  (ite (or (not (= a4 b4)) (= sec 4)) (cmpI a4 b4)
+  (ite (< p 5) (ite same 0 2)
+  (cmpI a5 b5))))))))))))
+(define-fun minI ((a Int) (b Int)) Int (ite (< a b) a b))
+; reference comparison of two Times of day
+(define-fun cmpTime ((a Time) (la String) (b Time) (lb String)) Int
+  (cmpLevels (tH a) (tH b) (tMi a) (tMi b) (+ (* (tS a) 1000000000) (tNs a)) (+ (* (tS b) 1000000000) (tNs b)) 0 0 0 0 0 0
+             (minI (timePrec la) (timePrec lb)) (= (timePrec la) (timePrec lb)) 2))
+; reference comparison of two DateTimes: after normalisation to UTC
+(define-fun cmpDT ((a Time) (la String) (b Time) (lb String)) Int
+  (cmpLevels (tY (utcT a)) (tY (utcT b)) (tMo (utcT a)) (tMo (utcT b)) (tD (utcT a)) (tD (utcT b)) (tH (utcT a)) (tH (utcT b))
+             (tMi (utcT a)) (tMi (utcT b)) (+ (* (tS (utcT a)) 1000000000) (tNs (utcT a))) (+ (* (tS (utcT b)) 1000000000) (tNs (utcT b)))
+             (minI (dtPrec la) (dtPrec lb)) (= (dtPrec la) (dtPrec lb)) 5))
+; type invariants: fields below the precision are at their defaults
+(define-fun validTimeT ((t Time) (l String)) Bool
+  (and (>= (timePrec l) 0) (= (tOff t) 0) (civRanges t) (= (tY t) 0) (= (tMo t) 1) (= (tD t) 1)
+       (=> (< (timePrec l) 1) (= (tMi t) 0)) (=> (< (timePrec l) 2) (and (= (tS t) 0) (= (tNs t) 0)))))
+(define-fun validDTT ((t Time) (l String)) Bool
+  (and (>= (dtPrec l) 0) (civRanges t) (civRanges (utcT t))
+       (=> (< (dtPrec l) 3) (= (tOff t) 0))
+       ; zone offsets are whole minutes; at hour precision the claim covers whole-hour offsets
+       (= (mod (tOff t) 60) 0) (=> (= (dtPrec l) 3) (= (mod (tOff t) 3600) 0))
+       (=> (< (dtPrec l) 1) (= (tMo t) 1)) (=> (< (dtPrec l) 2) (= (tD t) 1)) (=> (< (dtPrec l) 3) (= (tH t) 0))
+       (=> (< (dtPrec l) 4) (= (tMi t) 0)) (=> (< (dtPrec l) 5) (and (= (tS t) 0) (= (tNs t) 0)))))
